@@ -11,12 +11,14 @@ TECHNIQUE = 'Lean 4 theorems (induction over the module list and the compaction 
 LEVEL_TEXT = ('Cover, only-own, identity/enterprise/compliance sections and monotonicity are proved in Lean for every old '
               'index, every list of module summaries and every OID set (unbounded), generically in the prefix test and then '
               'for the exact string test the code performs (dotPrefix_iff: it is the component-wise prefix relation on all '
-              'strings). Idempotence is not proved yet: it is checked by the oracle on every generated case. The model is '
+              'strings). Idempotence is proved too (C18_reindex_same): running genIndex again on the same results on top of its own output gives '
+              'the same keys and the same modules under every key in all four sections, for every old index with distinct keys (a Python dict); '
+              'it rests on the minimality of what the compaction pass keeps (it visits shallower keys first). The model is '
               'tied to genIndex by differential runs (exhaustive small scope + random build sequences).')
 LEVEL_NOTE = ('Trusted: Lean kernel + standard axioms, the hand-written model of genIndex up to order(), the correspondence '
               'harness, json/sorted in CPython. The order in which a status yields its OIDs is an explicit model input.')
-MODULES = ['Pysmi.Props.C18']
-LAKE_TARGETS = ['Pysmi.Props.C18']
+MODULES = ['Pysmi.Props.C18', 'Pysmi.Props.C18Reindex']
+LAKE_TARGETS = ['Pysmi.Props.C18', 'Pysmi.Props.C18Reindex']
 THEOREMS = [
     'Pysmi.Index.C18_cover_generic',
     'Pysmi.Index.C18_cover',
@@ -26,6 +28,12 @@ THEOREMS = [
     'Pysmi.Index.C18_monotone_str',
     'Pysmi.Index.dotPrefix_iff',
     'Pysmi.Index.C18_cover_false_for_string_prefix',
+    'Pysmi.Index.compact_minimal',
+    'Pysmi.Index.compact_reindex',
+    'Pysmi.Index.C18_reindex_oids',
+    'Pysmi.Index.C18_reindex_sections',
+    'Pysmi.Index.C18_reindex_same',
+    'Pysmi.Index.dotPrefix_strict',
 ]
 ASSUMPTIONS = [
     'genIndex is modelled by hand (Model/Index.lean) up to the final order() call; tied by this run\'s correspondence',
